@@ -267,12 +267,22 @@ func (ps *propertyServer) findPrevAndOlderProperties(nodeProperties map[string][
 				olderProperties = append(olderProperties, p)
 			}
 			// update the prov property
-			if prevPropertyWithMetadata == nil || p.Metadata.ModRevision > prevPropertyWithMetadata.Metadata.ModRevision {
+			if prevPropertyWithMetadata == nil || supersedes(p, prevPropertyWithMetadata) {
 				prevPropertyWithMetadata = p
 			}
 		}
 	}
 	return prevPropertyWithMetadata, olderProperties
+}
+
+// supersedes reports whether replica copy p is a later state of the key than cur: a greater
+// modification revision, or the same revision deleted - a delete keeps the revision of the value
+// it removes, so the tombstone is the later state and must win over a replica's stale live copy.
+func supersedes(p, cur *propertyWithMetadata) bool {
+	if p.Metadata.ModRevision != cur.Metadata.ModRevision {
+		return p.Metadata.ModRevision > cur.Metadata.ModRevision
+	}
+	return p.deletedTime > 0 && cur.deletedTime <= 0
 }
 
 func (ps *propertyServer) mergeProperty(ctx context.Context, now time.Time, shardID uint64, nodes []string,
@@ -543,18 +553,19 @@ func (ps *propertyServer) sortedQueryWithDedup(
 
 		// Check if we've seen this entity before
 		if existingCount, seen := seenIDs[entity]; seen {
-			// Same modRevision - accumulate node
-			if p.Metadata.ModRevision == existingCount.Metadata.ModRevision {
+			// Same state (revision and deletion) - accumulate node
+			if p.Metadata.ModRevision == existingCount.Metadata.ModRevision &&
+				(p.deletedTime > 0) == (existingCount.deletedTime > 0) {
 				existingCount.addExistNode(p.node)
 				continue
 			}
 
-			// Older modRevision - skip
-			if p.Metadata.ModRevision < existingCount.Metadata.ModRevision {
+			// Older state - skip (the replica is not counted, so it gets repaired)
+			if !supersedes(p, existingCount.propertyWithMetadata) {
 				continue
 			}
 
-			// Newer modRevision - replace old entry
+			// Newer state (greater revision, or the tombstone of the same revision) - replace old entry
 			// Find and remove old entry from resultBuffer using binary search
 			oldIndex := ps.findPropertyInBuffer(resultBuffer, existingCount, isDesc)
 			if oldIndex >= 0 && oldIndex < len(resultBuffer) {
@@ -682,9 +693,10 @@ func (ps *propertyServer) simpleDedupWithoutSort(
 
 			if existing, seen := seenIDs[entity]; seen {
 				switch {
-				case existing.Metadata.ModRevision < p.Metadata.ModRevision:
+				case supersedes(p, existing.propertyWithMetadata):
 					seenIDs[entity] = newPropertyWithCounts(p, entity, n)
-				case existing.Metadata.ModRevision == p.Metadata.ModRevision:
+				case existing.Metadata.ModRevision == p.Metadata.ModRevision &&
+					(existing.deletedTime > 0) == (p.deletedTime > 0):
 					existing.addExistNode(n)
 				}
 			} else {
